@@ -181,6 +181,17 @@ def column_bases(ctx: Ctx):
                 ctx.count("effective-base blocks")
     else:
         ctx.undecided("effective-base.blocks", where, u(g)[:100], "2x2 grid")
+    # whatever the spelling: sum w^2 comes from the 2-D per-cell measure (`column_squared_bases`), whose every row has its own
+    # value when the rows dimension is an array.  The 1-D marginal `columns_squared_base` is line 0 of it (its flag is the
+    # switch, its VALUES are the first row's): every row of an MR x CAT slice after the first gets the first row's sum w^2
+    body_reads = {n.attr for n in ast.walk(e.body) if isinstance(n, ast.Attribute) and u(n.value) == SOM}
+    if "columns_squared_base" in body_reads:
+        ctx.violated("effective-base.source", where, "the effective base is computed from the 1-D marginal columns_squared_base (.blocks)", "the 2-D column_squared_bases blocks (one sum of squared weights per cell)",
+                     "the marginal is the first row's sum of squared weights broadcast down the rows: with array (MR) rows every later row has a wrong effective base, t, df and p")
+    elif "column_squared_bases" in body_reads:
+        ctx.held("effective-base.source", where, "sum w^2 from the 2-D column_squared_bases", "")
+    else:
+        ctx.undecided("effective-base.source", where, f"reads {sorted(body_reads)}", "column_squared_bases")
     ctx.require_min("effective-base blocks", 4)
     block_mirror(ctx)
     cs = ctx.repo.cls(MM, "_ColumnSquaredBases")
